@@ -1300,6 +1300,7 @@ func runSubQueryLineage(c *Ctx, R string) {
 	if ie == nil || inherit == nil {
 		return
 	}
+	adF := c.field(R, "github.com/miekg/dns.MsgHdr.AuthenticatedData")
 	sub := ResultOf(0, ie)
 	fromSub := func(v ssa.Value) bool {
 		for _, l := range Origins(Desc(v), nil) {
@@ -1387,6 +1388,13 @@ func runSubQueryLineage(c *Ctx, R string) {
 					return false, ""
 				}
 				if p, ok := root.(*ssa.Parameter); ok && c04IsDNSMsgPtr(p.Type()) {
+					// AD ← false withdraws a claim of the outer reply; nothing of the
+					// sub-response travels with it that could be served past the
+					// sub-query's lifetime (AD=0 is a valid thing to say at any time),
+					// however the decision to withdraw was reached (F-C02-5, F-C01-9)
+					if adF != nil && isFieldStore(in, adF, IsConstBool(false)) {
+						return false, ""
+					}
 					// a store that happens whatever the sub-response says, with a value
 					// not taken from it, transfers nothing
 					if independent.visited[in] && !fromSub(st.Val) {
